@@ -143,9 +143,13 @@ class Check(object):
 
     def write_replay(self, name, body):
         os.makedirs(REPLAY_DIR, exist_ok=True)
-        path = os.path.join(REPLAY_DIR, '%s-%s.py' % (self.prop, name))
-        with open(path, 'w') as f:
+        # unique per content: workers run in parallel and may replay different cases of the same kind
+        tag = hashlib.md5(body.encode('utf-8', 'replace')).hexdigest()[:8]
+        path = os.path.join(REPLAY_DIR, '%s-%s-%s.py' % (self.prop, name, tag))
+        tmp = path + '.%d.tmp' % os.getpid()
+        with open(tmp, 'w') as f:
             f.write(body)
+        os.replace(tmp, path)
         return path
 
     # ---- finishing -------------------------------------------------------
@@ -177,6 +181,14 @@ class Check(object):
         }
         cov.update(self.extra)
         qs = self.queries
+        grp = {}
+        for q in qs:
+            k = q['name'].split(':')[0]
+            g = grp.setdefault(k, [0, 0.0])
+            g[0] += 1
+            g[1] += q['seconds']
+        cov['solver_time_by_case'] = [dict(case=k, queries=v[0], seconds=round(v[1], 2))
+                                      for k, v in sorted(grp.items(), key=lambda kv: -kv[1][1])[:40]]
         if len(qs) > 400:
             # keep the evidence readable: aggregate per verdict, keep slowest + first ones
             slow = sorted(qs, key=lambda q: -q['seconds'])[:100]
